@@ -435,6 +435,48 @@ func runC20(c *core.Ctx, idx int) {
 			c.Sample(map[string]any{"query": text, "referenced": rs})
 		}
 	}
+	// sort fields taken over from another query (Query.AdoptSortFields: the caller's default sort put on a user's
+	// filter) are sort fields of the query that is validated
+	for k := 0; k < 4; k++ {
+		sym := core.Pick(r, []string{"s", "ism", "ibig", "flt", "b", "t"})
+		other := core.Pick(r, []string{"s", "ism", "ibig", "flt", "b", "t"})
+		filterText := core.Pick(r, []string{`true`, other + ` != null`, other + ` != null sort by ` + other, `true sort by id`})
+		sortText := `true sort by ` + sym + core.Pick(r, []string{"", " desc", ", id"})
+		for _, private := range []bool{true, false} {
+			st := allPublic
+			if private {
+				st = buildC20Store(map[string]bool{sym: true}, nil, false)
+			}
+			fq, err1 := ast.Parse(st.Store, filterText)
+			sq, err2 := ast.Parse(st.Store, sortText)
+			if err1 != nil || err2 != nil {
+				c.Violationf("C20 adopted sort fields: parse failed", nil, "%q: %v, %q: %v", filterText, err1, sortText, err2)
+				continue
+			}
+			if err := fq.AdoptSortFields(sq); err != nil {
+				c.Violationf("C20 adopted sort fields: AdoptSortFields between two parsed queries failed", nil, "%v", err)
+				continue
+			}
+			verr := boltz.ValidateSymbolsArePublic(fq, st.Store)
+			c.Eval()
+			c.Count("adopted_sort_validations", 1)
+			c.Cover("position", "sort-field adopted from another query")
+			info := map[string]any{"filter": filterText, "sort_adopted_from": sortText, "non_public": map[bool]string{true: sym, false: ""}[private]}
+			if fs := fq.GetSortFields(); len(fs) == 0 || fs[0].Symbol() != sym {
+				c.Violationf("C20 adopted sort fields: the query does not report the adopted sort", info, "sort fields %v", fs)
+			}
+			if private && (sym != other || strings.Contains(filterText, "true")) {
+				c.Nontrivial("adopted", sym, filterText)
+			}
+			if private && verr == nil {
+				c.Violationf("C20 query sorting by a non-public symbol accepted (sort fields adopted from another query)", info, "filter %q sorted like %q accepted although %q is not public", filterText, sortText, sym)
+			} else if private && errSym(verr) != sym {
+				c.Violationf("C20 rejection names a symbol that is not a referenced non-public one (adopted sort)", info, "%v", verr)
+			} else if !private && verr != nil {
+				c.Violationf("C20 query over public symbols rejected (adopted sort)", info, "%v", verr)
+			}
+		}
+	}
 }
 
 func errSym(err error) string {
